@@ -370,7 +370,7 @@ impl Sut for V {
         out
     }
 
-    fn layers(&self, image: Rc<Vec<u8>>, depth: usize, rcfg: &ReadCfg, ops: &[LOp]) -> LayerOut {
+    fn layers(&self, image: Rc<Vec<u8>>, depth: usize, rcfg: &ReadCfg, len: u64, ops: &[LOp]) -> LayerOut {
         let mut src = source(&image, rcfg);
         let mut out = LayerOut { build: Ok(()), results: Vec::new(), panic: None };
         let r = guard(|| {
@@ -401,17 +401,31 @@ impl Sut for V {
                     return;
                 }
             };
+            // position a cursor over the same plaintext would be at
+            let mut mpos: u64 = 0;
             for op in ops {
                 let r = match op {
-                    LOp::SeekStart { p } => s.seek(SeekFrom::Start(*p)).map(LRes::Pos).unwrap_or_else(|e| LRes::Err(es(e))),
-                    LOp::SeekCur { d } => s.seek(SeekFrom::Current(*d)).map(LRes::Pos).unwrap_or_else(|e| LRes::Err(es(e))),
-                    LOp::SeekEnd { d } => s.seek(SeekFrom::End(*d)).map(LRes::Pos).unwrap_or_else(|e| LRes::Err(es(e))),
+                    LOp::SeekStart { p } => {
+                        mpos = *p;
+                        s.seek(SeekFrom::Start(*p)).map(LRes::Pos).unwrap_or_else(|e| LRes::Err(es(e)))
+                    }
+                    LOp::SeekCurTo { p } => {
+                        let d = *p as i64 - mpos as i64;
+                        mpos = *p;
+                        s.seek(SeekFrom::Current(d)).map(LRes::Pos).unwrap_or_else(|e| LRes::Err(es(e)))
+                    }
+                    LOp::SeekCur0 => s.seek(SeekFrom::Current(0)).map(LRes::Pos).unwrap_or_else(|e| LRes::Err(es(e))),
+                    LOp::SeekEndTo { p } => {
+                        mpos = *p;
+                        s.seek(SeekFrom::End(*p as i64 - len as i64)).map(LRes::Pos).unwrap_or_else(|e| LRes::Err(es(e)))
+                    }
                     LOp::Pos => s.stream_position().map(LRes::Pos).unwrap_or_else(|e| LRes::Err(es(e))),
                     LOp::Read { n } => {
                         let mut buf = vec![0u8; *n];
                         match s.read(&mut buf) {
                             Ok(k) => {
                                 buf.truncate(k);
+                                mpos += k as u64;
                                 LRes::Bytes(buf)
                             }
                             Err(e) => LRes::Err(es(e)),
